@@ -178,7 +178,9 @@ def run_case(rng, tier, idx):
             nyq += 1
         c.desc['numerical_orders'] = [nxq, nyq]
         try:
-            Kn = pn.calc_k0(size=d['size'], row0=d['row0'], col0=d['row0'], silent=True, c=np.zeros(d['size']), nx=nxq, ny=nyq)
+            okw, okind = gen.order_kwargs(rng, pn, nxq, nyq)
+            c.tag('orders:' + okind)
+            Kn = pn.calc_k0(size=d['size'], row0=d['row0'], col0=d['row0'], silent=True, c=np.zeros(d['size']), **okw)
             bn, outn = energy.block(Kn, d['row0'], size_p)
             Kq, Sq = oracle_k0(pn, d, orders=(nxq, nyq))
             ratio, ij = entrywise_excess(bn, Kq, Sq, 1e-9)
